@@ -151,6 +151,17 @@ CLAIMED = {
             "scenario) and no operand is written.",
             "accuracy of the quotient (inherits AMEn's convergence behaviour) is NOT decided",
             "DESIGN.md section 4 C13"),
+    "C17": ("tolerant reader for cpp/*.h (function table, parameter kinds, PYBIND11 export table, #defines, expression grammar for "
+            "tensor-algebra chains) + contraction-structure type checking (E5) of the C++ local operators against the same "
+            "specifications as the Python siblings; binding/arity/kind/role table rule; preconditioner code table; dispatch rule; "
+            "constant normal forms",
+            "Clause level: decides the interface and sibling clauses of 'both backends obey the same contracts': exported names, "
+            "arity, kinds and roles of every positional argument of torchttcpp.amen_solve / dmrg_mv; preconditioner codes; C++ local "
+            "product, interface recursions, operator object (both Jacobi preconditioners) and dense local matrix denote the specified "
+            "networks; real_tol / damp / rank-selection test agree; every input rejection precedes the backend choice.",
+            "agreement of the computed results and the accuracy contracts of the compiled solver need both backends to run: NOT decided; "
+            "the C++ sweep bodies (bookkeeping of ranks, enrichment) are not typed",
+            "DESIGN.md section 4 C17"),
 }
 
 NOT_APPLICABLE = {
